@@ -1,5 +1,5 @@
 import H2V.Lemmas.ConnRecvPStreams
-import H2V.Lemmas.ConnRecvPFlow
+import H2V.Lemmas.ConnRecvPClear
 /-
   C03 — part 11: `Inner::send_reset(id, reason)` (`DynStreams::send_reset`, called by
   `handle_poll2_result` for a stream error that travelled up).  For an id the store does not know it
